@@ -23,6 +23,14 @@ CHECKS = {
                       "configuration: two live guards, data race (happens-before), all-parked deadlock, reachable panic, try_lock failing "
                       "without having seen the lock held; plus 'all threads finish' as vacuity witness."),
                 note=M_NOTE + " Quick: 2 threads K=20..24 (four program mixes) and 3 threads K=20; thorough: up to K=40 / 4 threads."),
+    "C03": dict(engine="K", technique=K_TECH, design_ref="§4 C03",
+                text=("PARTIAL, stated: bounded model checking of (1) the allocator's size/index arithmetic at full 64-bit width and (2) single "
+                      "malloc / memalign / calloc calls with symbolic size and alignment on the fresh heap above an OS model that may refuse "
+                      "memory (null iff too large or refused; aligned; inside mapped memory; zeroed; allocator untouched on refusal); plus (3) "
+                      "bounded execution of listed concrete histories (disjointness, contents intact, realloc prefix, reuse) - NOT a "
+                      "quantifier over histories."),
+                note=K_NOTE_KERNEL + " The claim rests on (1) and (2); 'every history from any reachable heap state' is outside (two symbolic "
+                     "operations in a row do not finish: 15-20 min / 30-40 GB)."),
     "C07": dict(engine="K", technique=K_TECH, design_ref="§4 C07",
                 text=("Bounded model checking of the start-up walk (tiny_start::start::resolve + AuxValues::from_auxv) over symbolic kernel "
                       "stack images and of env::var/var_unix/args over symbolic environment blocks, against the definition 'first entry whose "
@@ -34,6 +42,13 @@ CHECKS = {
                       "returns only in the caller; at exec the program, argv, envp, cwd, ids, process group and stdio are exactly the "
                       "configured ones; a failing child step is reported with its positive errno; wait/try_wait report the kernel's status."),
                 note=K_NOTE_KERNEL + " Quick: <=1 arg/env entry, cwd/uid/stdin-pipe options; thorough: <=2, gid/pgroup/stdout descriptor."),
+    "C14": dict(engine="K", technique=K_TECH, design_ref="§4 C14",
+                text=("Bounded model checking above a model file system inside the kernel stand-in: create_dir_all from every prefix-closed "
+                      "prior state of the tree for a table of path shapes; File::copy for every source length and prior destination with "
+                      "short copies; OpenOptions' flag word against the std semantics for all 64 combinations; directory iteration over "
+                      "symbolic linux_dirent64 records across refills."),
+                note=K_NOTE_KERNEL + " PARTIAL: remove_dir_all on real trees, symlinks/fifos, 512-byte path boundary, fan-out in the thousands, "
+                     "fs::read (read_to_end) are outside."),
     "C15": dict(engine="K", technique=K_TECH, design_ref="§4 C15",
                 text=("Bounded model checking of read_exact, write_all, write_fmt and the ReadBuf cursor arithmetic against a reader/writer "
                       "whose every response (k bytes, 0, EINTR, error) is chosen by the solver."),
